@@ -419,6 +419,16 @@ uint64_t cmi_hashheap_enqueue(struct cmi_hashheap *hp,
     const uint64_t hc = ++hp->heap_count;
     hp->item_counter += 1u;
     if (hashkey == 0u) {
+        /*
+         * Issue the next key of our own series that is not zero and not in
+         * use: the caller may have brought in that very number as a key of its
+         * own for an item that is still here.
+         */
+        while ((hp->item_counter == 0u)
+               || (cmi_hash_find_index(hp, hp->item_counter) != 0u)) {
+            hp->item_counter += 1u;
+        }
+
         hashkey = hp->item_counter;
     }
 
